@@ -1,48 +1,58 @@
 ----------------------------- MODULE MCGFormat -----------------------------
 (* M part of C16: internal consistency of ScpiGFormat on ALL decimal         *)
 (* expansions with at most MaxLen digits (first digit non-zero, trailing     *)
-(* zeros included), exponents EMin..EMax, precisions 1..PMax, both signs,    *)
-(* and zero.  The expansions are grown digit by digit so that TLC's workers  *)
+(* zeros included), exponents Exps, precisions Precs, both signs    *)
+(* (negative values up to NegLen digits) and zero.  The expansions are grown digit by digit so that TLC's workers  *)
 (* share the enumeration; every state is one (value, precision) pair.        *)
 EXTENDS Integers, Sequences, FiniteSets, TLC
-CONSTANTS MaxLen, EMin, EMax, PMax
+CONSTANTS MaxLen, NegLen, Exps, Precs
 VARIABLES d, e, P, neg
 G == INSTANCE ScpiGFormat
-EMinDef == 0 - 8
+ExpsFull == (0 - 8)..8
+ExpsSix == {0 - 5, 0 - 1, 5}
+PrecsFull == 1..6
+PrecsSix == {5, 6}
 vars == <<d, e, P, neg>>
 Init == /\ d \in {<<k>> : k \in 0..9}
-        /\ e \in (IF d = <<0>> THEN {0} ELSE EMin..EMax)
-        /\ P \in 1..PMax
+        /\ e \in (IF d = <<0>> THEN {0} ELSE Exps)
+        /\ P \in Precs
         /\ neg \in {0, 1}
-Next == /\ d # <<0>> /\ Len(d) < MaxLen
+Next == /\ d # <<0>> /\ Len(d) < (IF neg = 1 THEN NegLen ELSE MaxLen)
         /\ \E k \in 0..9 : d' = Append(d, k)
         /\ UNCHANGED <<e, P, neg>>
 Spec == Init /\ [][Next]_vars
 
 v == [d |-> d, e |-> e]
-text == G!GFormat(neg, v, P)
-p == G!Parse(text)
 
 (* the text reads back as a number of the same sign *)
-Reparses == p.ok /\ p.neg = neg
+Reparses(text, p) == p.ok /\ p.neg = neg
 (* ... within half a unit of the last requested digit (hence also within one unit) *)
-HalfUnit == G!WithinHalf(p.m, v, P) /\ G!WithinUnits(p.m, v, P, 1)
+HalfUnit(text, p) == G!WithinHalf(p.m, v, P) /\ G!WithinUnits(p.m, v, P, 1)
 (* ... formatting what was read gives the same text again *)
-Idempotent == G!GFormat(p.neg, p.m, P) = text
+Idempotent(text, p) == G!GFormat(p.neg, p.m, P) = text
 (* ... no digit but trailing zeros is dropped, and no more than P are written *)
-KeepsDigits == G!NoDigitLost(p, v, P) /\ p.shown <= P
-(* ... no trailing zero in the mantissa, no bare point *)
-Stripped == \/ G!IsZ(p.m)
-            \/ p.last >= 0 /\ ~p.hasExp          \* integer in fixed style: zeros before the point are digits
-            \/ p.shown = Len(p.m.d)
+KeepsDigits(text, p) == G!NoDigitLost(p, v, P) /\ p.shown <= P
+(* ... no trailing zero in the mantissa *)
+Stripped(text, p) == \/ G!IsZ(p.m)
+                     \/ p.last >= 0 /\ ~p.hasExp          \* integer in fixed style: zeros before the point are digits
+                     \/ p.shown = Len(p.m.d)
 (* ... exponent style exactly when the decimal exponent of the rounded value is < -4 or >= P; two exponent digits at least *)
-Style == /\ p.hasExp <=> (~G!IsZ(p.m) /\ G!UseExpStyle(p.m.e, P))
-         /\ p.hasExp => p.expDigits >= 2
-(* the result is a nearest P-digit number: no neighbour on the P-digit grid is strictly closer; checked through *)
-(* the half-unit bound above.  Rounding is monotone in the value: appending a digit never lowers the result.    *)
+Style(text, p) == /\ p.hasExp <=> (~G!IsZ(p.m) /\ G!UseExpStyle(p.m.e, P))
+                  /\ p.hasExp => p.expDigits >= 2
+(* rounding is monotone in the value: appending a digit never lowers the result *)
 Monotone == Len(d) > 1 /\ d # <<0>> =>
               LET w == [d |-> SubSeq(d, 1, Len(d) - 1), e |-> e]
-                  a == G!RoundP(w, P)
-                  b == G!RoundP(v, P)
-              IN G!CmpM(a, b) <= 0
+              IN G!CmpM(G!RoundP(w, P), G!RoundP(v, P)) <= 0
+
+Holds(name, b) == b \/ (PrintT(<<"LEMMA-FAILED", name, d, e, P, neg>>) /\ FALSE)
+(* one invariant so that the text and its parse are computed once per state; a failing lemma is named in the output *)
+Lemmas == LET text == G!GFormat(neg, v, P)
+              p == G!Parse(text)
+          IN /\ Holds("Reparses", Reparses(text, p))
+             /\ Holds("HalfUnit", HalfUnit(text, p))
+             /\ Holds("Idempotent", Idempotent(text, p))
+             /\ Holds("KeepsDigits", KeepsDigits(text, p))
+             /\ Holds("Stripped", Stripped(text, p))
+             /\ Holds("Style", Style(text, p))
+             /\ Holds("Monotone", Monotone)
 =============================================================================
